@@ -222,7 +222,7 @@ class LoopMixin:
                 except E._Break:
                     how = "break"
                 except E._Return:
-                    if spec.get("exhaustive"):
+                    if spec.get("exhaustive") and spec.get("exhaustive") != "no-break":
                         self.ctx.oblige(self, "post", f"{header}:exhaustive", z3.BoolVal(False), "the loop body returns: later elements are never visited",
                                         False, text="the loop visits every element (no break / return out of the body)")
                     raise
